@@ -411,6 +411,7 @@ class C03(HistConc):
         # the deprecated Arc::write / as_mut_slice gate, in debug and in release builds
         j += simple_jobs("dbg", ["uninit", "seed=%d" % seed, "maxlen=8"], p)
         j += simple_jobs("rel", ["uninit", "seed=%d" % seed, "maxlen=8"], p)
+        j += uninitpoll_jobs(seed, p, big)
         return j
     assumptions = COMMON_ASSUME + [
         "schedule half: Miri's race detector / ThreadSanitizer decide whether every former sharer's access happens-before the granted write; "
@@ -884,6 +885,15 @@ class C14(Plan):
         return need(counts, ["cmp.pairs", "cmp.hash", "cmp.map-probes", "cmp.pairs.same-allocation"])
 
 
+def uninitpoll_jobs(seed, p, big):
+    """Schedules of the deprecated write / as_mut_slice gate: readers on other threads let go, then the gate grants the write (with and without debug assertions)."""
+    j = conc_jobs("dbg", "uninitpoll", 40000 if big else 800, seed, p, delay=1, nshards=4 if big else 1, first0=50 * 10 ** 6)
+    j += conc_jobs("rel", "uninitpoll", 40000 if big else 800, seed, p, delay=1, nshards=4 if big else 1, first0=51 * 10 ** 6)
+    j += conc_jobs("tsan", "uninitpoll", 80000 if big else 4000, seed, p, delay=1, nshards=8 if big else 2, first0=52 * 10 ** 6, timeout=3000)
+    j += miri_conc_jobs("uninitpoll", 96 if big else 12, 4, seed, p, first0=53 * 10 ** 6, extra_flags=PREEMPT)
+    return j
+
+
 class C15(Plan):
     assumptions = COMMON_ASSUME + [
         "elements written into a handle that is dropped before assume_init are, by contract, not destroyed: the check requires them to stay alive",
@@ -910,6 +920,7 @@ class C15(Plan):
                       valgrind_args=["--leak-check=no"]) for k in range(16)]
             j += [Job("miri", ["uninit", "seed=%d" % seed, "maxlen=9", "shard=%d" % k, "nshards=64"], san_props=p, crash_props=p, miri_seed=seed * 4096 + k,
                       tb=(k % 4 == 3), miri_extra="-Zmiri-ignore-leaks", timeout=3000) for k in range(64)]
+        j += uninitpoll_jobs(seed, p, tier != "quick")
         return j
 
     def coverage(self, counts, sets, samples, other, results):
@@ -922,6 +933,7 @@ class C15(Plan):
                  "distinct_nontrivial = distinct (shapes, length, none/some/all written, path) cases",
             samples=samples,
             per_path={k: v for k, v in counts.items() if k.startswith("uninit.s")},
+            deprecated_gate_schedules=sub(counts, "conc.uninitpoll."),
             allocator_checked_frees=other.get("checked_frees", 0),
         )
 
